@@ -22,6 +22,7 @@
 (*        what FrameStream.Read returned on the receiving node for one direction               *)
 (*  LD   {sent, len, eq, eof, hung}   listener path: what the source side of the bridge received  *)
 (*        of the tunnel bytes written right behind the TargetReady frame                        *)
+(*  PT   {i, dir, c, prev, reused, sent, len, eq, eof, hung, needEof}   pooled-connection reuse    *)
 (*  FE   {who, sent, len, eq, eof, hung, needEof}   what the endpoint behind the receiving     *)
 (*        forwarder got                                                                        *)
 (* Write results are logged before the deliveries of a trace (the writer's calls are a script; *)
@@ -46,6 +47,8 @@ Init == l = 1 /\ viol = {} /\ cfg = Nil /\ written = 0 /\ closed = "" /\ deliver
 F(r, f, d) == IF f \in DOMAIN r THEN r[f] ELSE d
 Idk == F(cfg, "idk", "?")
 Rsz == F(cfg, "rsz", "?")
+\* behaviours with other tunnels writing concurrently on the connection are a class of their own
+ParSfx == IF F(cfg, "par", 0) > 0 THEN ":concurrent" ELSE ""
 Add(c, d) == viol' = viol \cup {V(c, d)}
 Keep == UNCHANGED <<cfg, written, closed, delivered, collEnd, nulEnd, ended>>
 
@@ -74,24 +77,24 @@ TrInj == /\ Is("Inj") /\ l' = l + 1
          /\ nulEnd' = (nulEnd \/ (Ev.idrel = "diffnul" /\ Ev.ty # "data"))
          /\ UNCHANGED <<viol, cfg, written, closed, delivered, ended>>
 
-ForeignDetail(e) == IF e.src = "junk" THEN "junk"
+ForeignDetail(e) == IF e.src = "junk" THEN "junk" \o ParSfx
                     ELSE IF e.k \in {"fds", "fes"} THEN "id16:" \o Idk \o ":data"
                     ELSE IF e.k = "unk" THEN "unknown-type"
                     ELSE IF e.k \in {"fdn", "fen"} THEN "foreign:data:nul:" \o Idk   \* ids differ inside the 16 bytes, after a NUL
-                    ELSE "foreign:data"
+                    ELSE "foreign:data" \o ParSfx
 
 TrD == /\ Is("D") /\ l' = l + 1
        /\ IF Ev.src = "own"
           THEN /\ delivered' = delivered + Ev.len
                /\ IF ended THEN Add("Complete", "data-after-eof")
-                  ELSE IF Ev.off # delivered \/ ~Ev.eq THEN Add("InOrder", "corrupt:rsz=" \o Rsz)
-                  ELSE IF delivered + Ev.len > written THEN Add("InOrder", "beyond-written:rsz=" \o Rsz)
+                  ELSE IF Ev.off # delivered \/ ~Ev.eq THEN Add("InOrder", "corrupt:rsz=" \o Rsz \o ParSfx)
+                  ELSE IF delivered + Ev.len > written THEN Add("InOrder", "beyond-written:rsz=" \o Rsz \o ParSfx)
                   ELSE viol' = viol
           ELSE /\ delivered' = delivered
                /\ Add("NoForeign", ForeignDetail(Ev))
        /\ UNCHANGED <<cfg, written, closed, collEnd, nulEnd, ended>>
 
-EndDetail == "rsz=" \o Rsz \o ":end=" \o closed
+EndDetail == "rsz=" \o Rsz \o ":end=" \o closed \o ParSfx
 TrREnd == /\ Is("REnd") /\ l' = l + 1 /\ ended' = TRUE
           /\ LET vs == (IF Ev.how = "eof" /\ closed = "" THEN {V("Complete", "eof-before-close")} ELSE {})
                   \cup (IF Ev.how = "eof" /\ closed # "" /\ delivered < written
@@ -129,6 +132,7 @@ TrRt == /\ Is("Rt") /\ l' = l + 1
 
 \* ---- forwarding pair -----------------------------------------------------------------------
 FwdDetail(x) == "fwd:" \o F(cfg, "pat", "?") \o ":" \o x \o ":req=" \o F(cfg, "req", "?") \o ":resp=" \o F(cfg, "resp", "?")
+                \o ":cnt=" \o F(cfg, "cnt", "?") \o ":eofs=" \o F(cfg, "eofs", "?")
 PipeViol(e, x, needEof) ==
        (IF ~e.eq \/ e.len > e.sent THEN {V("InOrder", FwdDetail(x))} ELSE {})
   \cup (IF e.eq /\ e.len < e.sent THEN {V("Complete", "short:" \o FwdDetail(x))} ELSE {})
@@ -151,9 +155,18 @@ TrLD == /\ Is("LD") /\ l' = l + 1
         /\ viol' = viol \cup PipeViol2(Ev, "listener:" \o F(cfg, "cuts", "?") \o ":dsz=" \o F(cfg, "dsz", "?"))
         /\ Keep
 
+\* ---- pooled connection reuse: several tunnels one after the other on one NodeConnectionPool ----
+\* PT = one direction of tunnel i (sp: server -> pooled side, ps: pooled side -> server) on a
+\* connection obtained with Get; prev = how the previous tunnel on that connection ended
+\* (first | clean | residual = its last frame was left unread), reused = same TCP connection
+TrPT == /\ Is("PT") /\ l' = l + 1
+        /\ LET d == "pool:prev=" \o Ev.prev \o ":" \o Ev.dir \o ":" \o Ev.c
+           IN viol' = viol \cup (IF Ev.needEof THEN PipeViol2(Ev, d) ELSE PipeViol2([Ev EXCEPT !.eof = TRUE], d))
+        /\ Keep
+
 TrEnd == /\ Is("End") /\ EmitVerdict /\ l' = l + 1
          /\ viol' = {} /\ cfg' = Nil /\ written' = 0 /\ closed' = "" /\ delivered' = 0 /\ collEnd' = FALSE /\ nulEnd' = FALSE /\ ended' = FALSE
 
-Next == TrCfg \/ TrW \/ TrInj \/ TrD \/ TrREnd \/ TrDec \/ TrRt \/ TrFD \/ TrFE \/ TrLD \/ TrEnd
+Next == TrCfg \/ TrW \/ TrInj \/ TrD \/ TrREnd \/ TrDec \/ TrRt \/ TrFD \/ TrFE \/ TrLD \/ TrPT \/ TrEnd
 Spec == Init /\ [][Next]_vars
 =============================================================================
